@@ -50,6 +50,10 @@ CONFIGS["many_special"] = {'cps': [{'type': ('bit', 3), 'bins': [['a', 'arr', No
 CONFIGS["wild"] = {'cps': [{'type': ('bit', 3), 'bins': [['w', 'wild', (4, 4)], ['r', 'bin', [0, 3]]]},
                            {'type': ('bit', 2), 'bins': [['a', 'arr', None, [0, 3]]]}], 'crosses': [],
                    'small_bins': [['w', 'wild', (4, 6)], ['r', 'bin', [0, 3]]], 'values': [(0, 0), (5, 1), (6, 3)]}
+# one-bin-per-value arrays of different lengths (same name, same leading values)
+CONFIGS["arr_len"] = {'cps': [{'type': ('bit', 3), 'bins': [['a', 'arr', None, 1, 2, 4, 7]]},
+                              {'type': ('bit', 2), 'bins': [['lo', 'bin', 0, 1], ['hi', 'bin', 2, 3]]}], 'crosses': [],
+                      'small_bins': [['a', 'arr', None, 1, 2, 4]], 'values': [(1, 0), (7, 3), (4, 1)]}
 CONFIGS["x_atleast"] = {'cps': [{'type': ('bit', 2), 'bins': [['lo', 'bin', 0, 1], ['hi', 'bin', 2, 3]], 'at_least': 2},
                                 {'type': ('bit', 2), 'bins': [['a', 'arr', None, [0, 1]], ['r', 'bin', [2, 3]]], 'at_least': 1}],
                         'crosses': [['x', [0, 1], None, {'at_least': 2}], ['y', [1, 0], None, {'at_least': 1}]]}
@@ -338,7 +342,7 @@ def world_names():
     for n, c in CONFIGS.items():
         out.append(n)
         b0 = c['cps'][0].get('bins')
-        if b0 and len(b0) > 1:
+        if (b0 and len(b0) > 1) or c.get('small_bins'):
             out.append(n + "@small")
     return out
 
